@@ -51,7 +51,8 @@ INT_STR_LIMIT = "for integer string conversion"
 def culprit_of(ex) -> str:
     """Names the mechanism of an escaped InternalError (the key of known findings)."""
     text = getattr(ex, "text", None) or str(ex)
-    if INT_STR_LIMIT in text:
+    if INT_STR_LIMIT in text or INT_STR_LIMIT in urllib.parse.unquote(text):
+        # the wrapper that adds the path quotes the cause only inside the issue-tracker URL (percent-encoded)
         return "int-str-digits-limit"
     m = CULPRIT_RE.search(text)
     if m:
